@@ -226,11 +226,16 @@ func Equal[K comparable, V any](a, b *Map[K, V]) bool {
 	}
 	i, j := 0, 0
 	for i < len(a.items) && j < len(b.items) {
-		for a.items[i].deleted {
+		for i < len(a.items) && a.items[i].deleted {
 			i++
 		}
-		for b.items[j].deleted {
+		for j < len(b.items) && b.items[j].deleted {
 			j++
+		}
+		if i >= len(a.items) || j >= len(b.items) {
+			// Only deleted items remained in one of the maps. Because the
+			// lengths are equal, the other has no live items left either.
+			break
 		}
 		if a.items[i].Key != b.items[j].Key {
 			return false
